@@ -30,3 +30,13 @@ Proof. exact codes_ok_true. Qed.
 Theorem C05_dispatch_sequences_match_source : dispatch_model_ok = true.
 Proof. exact dispatch_model_ok_true. Qed.
 Print Assumptions C05_dispatch_sequences_match_source.
+
+(* events are reported in execution order and what was reported is never dropped, rewritten or reordered: a run only
+   appends to the log of deliveries (for arbitrary analyses; reference semantics, and the instrumented program) *)
+Theorem C05_delivery_log_only_grows :
+  forall (D : data) (analyses : list (analysis (Sem.earg (d_val D)))) (modpath : string)
+         (H : list string) (p : program) (fuel : nat) (s : state D),
+    src_prog p = true ->
+    exists d, deliveries D (ref_run D analyses modpath H fuel p s) = (dels (eng s) ++ d)%list.
+Proof. exact reference_log_grows. Qed.
+Print Assumptions C05_delivery_log_only_grows.
